@@ -23,12 +23,12 @@ Section Native2Theorems.
 
   (* both repairs off: the converter as read *)
   Theorem native2_off : forall M t,
-    convert_native2 false false adapt smin smax fuel M t = convert_native adapt smin smax fuel M t.
+    convert_native2 false false false adapt smin smax fuel M t = convert_native adapt smin smax fuel M t.
   Proof.
     intros M t. unfold convert_native2, convert_native.
     destruct ((t >? smax) || (t <? smin)); [reflexivity|].
     destruct (default_version M) as [dv|]; [|reflexivity].
-    rewrite versions_of_off. cbn [andb]. now rewrite conv_funcs2_off.
+    rewrite versions_of_off. cbn [andb orb]. now rewrite conv_funcs2_off.
   Qed.
 
   Lemma func_version_self : forall dv f, func_self_consistent f = true ->
@@ -53,22 +53,22 @@ Section Native2Theorems.
     now rewrite E.
   Qed.
 
-  Theorem native2_own_agree : forall refuse s M t,
+  Theorem native2_own_agree : forall refuse minchk s M t,
     consistent_at s M = true ->
-    convert_native2 true refuse adapt smin smax fuel M t = convert_native2 false refuse adapt smin smax fuel M t.
+    convert_native2 true refuse minchk adapt smin smax fuel M t = convert_native2 false refuse minchk adapt smin smax fuel M t.
   Proof.
-    intros refuse s M t Hc. unfold convert_native2.
+    intros refuse minchk s M t Hc. unfold convert_native2.
     destruct ((t >? smax) || (t <? smin)); [reflexivity|].
     rewrite (default_version_consistent s M Hc).
     apply consistent_at_inv in Hc as (_ & _ & _ & Hf). now rewrite (versions_of_consistent s _ Hf).
   Qed.
 
   (* the pre-check fires => VersionConverterError and the model is exactly the one passed in *)
-  Theorem native2_refused_unchanged : forall own M t dv fvs,
+  Theorem native2_refused_unchanged : forall own minchk M t dv fvs,
     (t >? smax) || (t <? smin) = false -> default_version M = Some dv -> versions_of own dv (m_funcs M) = Some fvs ->
     existsb (refuses t dv) (m_graph M) || existsb (fun p => existsb (refuses t (snd p)) (f_nodes (fst p))) fvs = true ->
-    convert_native2 own true adapt smin smax fuel M t = MRaised ERefused M [].
-  Proof. intros own M t dv fvs Hr Hd Hv Hp. unfold convert_native2. now rewrite Hr, Hd, Hv, Hp. Qed.
+    convert_native2 own true minchk adapt smin smax fuel M t = MRaised ERefused M [].
+  Proof. intros own minchk M t dv fvs Hr Hd Hv Hp. unfold convert_native2. rewrite Hr, Hd, Hv. cbn [andb]. now rewrite Hp. Qed.
 
   Hypothesis adapt_flat : forall op k n news,
     adapt op k n = AReplace news -> Forall (fun m => n_subs m = []) news.
@@ -92,18 +92,18 @@ Section Native2Theorems.
 
   (* the function-opset repair: a model whose containers are each consistent with their OWN import (the functions may
      declare other opsets than the model) is converted to a model consistent at the target *)
-  Theorem native2_own_consistent : forall refuse s t M M',
+  Theorem native2_own_consistent : forall refuse minchk s t M M',
     locally_consistent s M = true ->
-    convert_native2 true refuse adapt smin smax fuel M t = MDone M' [] ->
+    convert_native2 true refuse minchk adapt smin smax fuel M t = MDone M' [] ->
     consistent_at t M' = true.
   Proof.
-    intros refuse s t M M' Hc H. unfold locally_consistent in Hc.
+    intros refuse minchk s t M M' Hc H. unfold locally_consistent in Hc.
     apply andb_true_iff in Hc as [Hc H4]. apply andb_true_iff in Hc as [Hc H3]. apply andb_true_iff in Hc as [H1 H2].
     unfold convert_native2 in H. destruct ((t >? smax) || (t <? smin)); [discriminate|].
     assert (Ed : default_version M = Some (Some s)).
     { unfold default_version. rewrite (oz_is_eq _ _ H1). destruct (m_ai M) as [b|]; [|reflexivity]. cbn in *. now rewrite Z.eqb_sym, H2. }
     rewrite Ed in H. destruct (versions_of true (Some s) (m_funcs M)) as [fvs|] eqn:Ev; [|discriminate].
-    destruct (refuse && _); [discriminate|].
+    destruct (_ || _) in H; [discriminate|].
     destruct (conv adapt t (Some s) fuel (m_graph M)) as [g l|e g l] eqn:Eg; [|discriminate].
     destruct (conv_funcs2 adapt fuel t fvs) as [[fs [e|]] l'] eqn:Ef; [discriminate|].
     injection H as <- Hl. apply app_eq_nil in Hl as [-> ->].
@@ -115,7 +115,7 @@ End Native2Theorems.
 
 (* ---------------------------------------------------------------- witnesses *)
 Definition std_native2 (own refuse : bool) (fx : flags) (M : model) (t : Z) : mres :=
-  convert_native2 own refuse (std_adapt fx) supported_min supported_max big_fuel M t.
+  convert_native2 own refuse false (std_adapt fx) supported_min supported_max big_fuel M t.
 
 (* the function written for opset 19 inside the opset-20 model (Std.w-style witness of the refuted theorem) *)
 Definition w_func_opset2 : model := Model (Some 20) None [relu] [Func (Some 19) None [dft_axis1]].
